@@ -13,7 +13,8 @@ Definition P (N a b : Z) (s : st) : Prop :=
 Ltac zcases :=
   repeat match goal with
   | |- context [if ?c then _ else _] => lazymatch c with context [if _ then _ else _] => fail | _ => destruct c eqn:? end
-  end.
+  | |- context [stale_if ?c _] => lazymatch c with true => fail | false => fail | context [if _ then _ else _] => fail | _ => destruct c eqn:? end
+  end; cbn [stale_if].
 
 Lemma upto_snoc k : upto (S k) = upto k ++ [Z.of_nat k]. Proof. reflexivity. Qed.
 Lemma fold_upto_last {A} (f : A -> Z -> A) (Q : Z -> A -> Prop) (m : nat) :
@@ -36,7 +37,7 @@ Ltac use_inv :=
   first [ assumption | reflexivity
         | match goal with H : forall k, _ -> L _ k = Fresh |- L _ _ = Fresh => apply H; lia end
         | match goal with H : forall k, _ -> R _ k = Fresh |- R _ _ = Fresh => apply H; lia end ].
-Ltac solve_status := cbn [L R CL CR pc ok]; unfold upd; zcases; try lia; cbn [stale_of]; use_inv.
+Ltac solve_status := cbn [L R CL CR pc ok]; unfold upd; zcases; try lia; cbn [stale_if stale_of]; use_inv.
 (* every read of the operation that has just been executed found a fresh entry *)
 Ltac fresh_reads :=
   repeat match goal with
@@ -79,21 +80,23 @@ Definition PC (N a b ca cb : Z) (s : st) : Prop :=
 Ltac decide_ifs :=
   repeat (match goal with
           | |- context [if ?c then _ else _] => first [ replace c with true by lia | replace c with false by lia ]
-          end; cbn [stale_of is_present is_fresh andb orb negb]).
+          | |- context [stale_if ?c _] => lazymatch c with true => fail | false => fail | _ => first [ replace c with true by lia | replace c with false by lia ] end
+          | |- context [orb ?c _] => lazymatch c with true => fail | false => fail | _ => first [ replace c with true by lia | replace c with false by lia ] end
+          end; cbn [stale_if stale_of is_present is_fresh andb orb negb]).
 Ltac use_inv2 :=
   first [ assumption | reflexivity | discriminate | congruence
         | match goal with H : forall k, _ -> L _ k = Fresh |- L _ _ = Fresh => apply H; lia end
         | match goal with H : forall k, _ -> R _ k = Fresh |- R _ _ = Fresh => apply H; lia end
         | match goal with H : forall j, _ -> CL _ j <> Stale |- CL _ _ <> Stale => apply H; lia end
         | match goal with H : forall j, _ -> CR _ j <> Stale |- CR _ _ <> Stale => apply H; lia end ].
-Ltac solve_status2 := cbn [L R CL CR pc ok]; unfold upd; zcases; try lia; cbn [stale_of]; use_inv2.
+Ltac solve_status2 := cbn [L R CL CR pc ok]; unfold upd; zcases; try lia; cbn [stale_if stale_of]; use_inv2.
 Ltac close_PC Hok :=
   unfold PC, P; cbn [write set_pc set_ok ok pc L R CL CR andb]; rewrite ?Hok;
   (split; [ (split; [first [reflexivity|assumption]|]); (split; [first [reflexivity|assumption]|]); (split; [solve_status2|]); (split; [solve_status2|]); (split; intros k Hk; solve_status2)
           | split; intros j Hj; solve_status2 ]).
 (* case analysis on the cache entries that are inspected, excluding Stale through the invariant where it applies *)
 Ltac dc s x HC i := is_var s; destruct x eqn:?; [ | | try (exfalso; eapply (HC i); [lia|eassumption]) ].
-Ltac simp := unfold upd, edge; cbn beta; decide_ifs; cbn [stale_of is_present is_fresh andb orb negb].
+Ltac simp := unfold upd, edge; cbn beta; decide_ifs; cbn [stale_if stale_of is_present is_fresh andb orb negb].
 Ltac dcache HCL HCR :=
   repeat (simp;
           match goal with
@@ -101,6 +104,8 @@ Ltac dcache HCL HCR :=
           | |- context [is_present (CR ?s ?i)] => dc s (CR s i) HCR i
           | |- context [is_present (stale_of (CL ?s ?i))] => dc s (CL s i) HCL i
           | |- context [is_present (stale_of (CR ?s ?i))] => dc s (CR s i) HCR i
+          | |- context [stale_of (CL ?s ?i)] => dc s (CL s i) HCL i
+          | |- context [stale_of (CR ?s ?i)] => dc s (CR s i) HCR i
           | |- context [match CL ?s ?i with Absent => _ | Fresh => _ | Stale => _ end] => dc s (CL s i) HCL i
           | |- context [match CR ?s ?i with Absent => _ | Fresh => _ | Stale => _ end] => dc s (CR s i) HCR i
           | |- context [match stale_of (CL ?s ?i) with Absent => _ | Fresh => _ | Stale => _ end] => dc s (CL s i) HCL i
@@ -119,11 +124,42 @@ Ltac exec_body body :=
 Ltac pc_none Hpc := rewrite ?Hpc; cbn [fold_left step step1 write set_ok set_pc pc ok L R CL CR andb orb negb is_present is_fresh].
 
 (* ------------------------------------------------------------------ generic symbolic execution of a body on a state satisfying P / PC *)
-Ltac body_P body Hok Hpc :=
-  exec_body body; repeat (simp; pc_none Hpc); simp; read_LR; simp; close_P Hok.
-Ltac body_PC body Hok Hpc HCL HCR :=
-  exec_body body; repeat (dcache HCL HCR; pc_none Hpc); dcache HCL HCR; simp; read_LR; simp; close_PC Hok.
-
+Lemma run_ops_cons pre N o r s : run_ops pre N (o :: r) s = run_ops pre N r (step pre N o s).
+Proof. reflexivity. Qed.
+Lemma run_ops_nil pre N s : run_ops pre N [] s = s.
+Proof. reflexivity. Qed.
+(* operations are executed one at a time and the state is normalised after each: evaluating a long list in one go re-evaluates the nested
+   states exponentially often *)
+Ltac exec_seq Hpc :=
+  repeat (rewrite run_ops_cons;
+          match goal with
+          | |- context [run_ops ?p ?N ?r (step ?p ?N ?o ?s)] =>
+            let x := fresh "st" in let Ex := fresh "Ex" in
+            remember (step p N o s) as x eqn:Ex;
+            cbn [step step1 write set_ok set_pc pc ok L R CL CR andb orb negb is_present is_fresh get_FL get_FR] in Ex;
+            rewrite ?Hpc in Ex;
+            cbn [step step1 write set_ok set_pc pc ok L R CL CR andb orb negb is_present is_fresh get_FL get_FR] in Ex;
+            subst x
+          end);
+  rewrite run_ops_nil.
+Ltac seq_P Hok Hpc := exec_seq Hpc; repeat (simp; pc_none Hpc); simp; read_LR; simp; close_P Hok.
+Ltac exec_seq_pc Hpc HCL HCR :=
+  repeat (rewrite run_ops_cons;
+          match goal with
+          | |- context [run_ops ?p ?N ?r (step ?p ?N ?o ?s)] =>
+            let x := fresh "st" in let Ex := fresh "Ex" in
+            remember (step p N o s) as x eqn:Ex;
+            cbn [step step1 write set_ok set_pc pc ok L R CL CR andb orb negb is_present is_fresh] in Ex; unfold get_FL, get_FR in Ex;
+            cbn [step step1 write set_ok set_pc pc ok L R CL CR andb orb negb is_present is_fresh] in Ex;
+            rewrite ?Hpc in Ex;
+            cbn [step step1 write set_ok set_pc pc ok L R CL CR andb orb negb is_present is_fresh] in Ex;
+            subst x
+          end;
+          dcache HCL HCR; pc_none Hpc);
+  rewrite run_ops_nil.
+Ltac seq_PC Hok Hpc HCL HCR := exec_seq_pc Hpc HCL HCR; dcache HCL HCR; simp; read_LR; simp; close_PC Hok.
+Ltac body_P body Hok Hpc := unfold body; seq_P Hok Hpc.
+Ltac body_PC body Hok Hpc HCL HCR := unfold body; seq_PC Hok Hpc HCL HCR.
 
 Lemma PC_weaken N a b ca cb a' b' ca' cb' s : PC N a b ca cb s -> (a' <= a \/ a' <= 0) -> (b <= b' \/ (b' = N - 1 /\ b = N)) -> (ca' <= ca \/ ca' <= 0) -> (cb <= cb' \/ N - 1 <= cb') -> PC N a' b' ca' cb' s.
 Proof.
